@@ -32,6 +32,7 @@ def cases(draw):
     s["explicit_dt_sample"] = draw(st.booleans())
     s["explicit_dp_sample"] = draw(st.booleans())
     s["bm_order"] = draw(st.integers(3, max(3, min(5, s["nv"] - 2))))
+    s["soft_mode"] = draw(st.sampled_from([False, False, False, True]))
     s["low_t"] = draw(st.booleans())
     if s["low_t"]:
         s["tmin"] = 0.0
@@ -43,7 +44,7 @@ def classes_of(s):
     return ["interp-" + s["interpolator"], "system-" + s["system"], "lattice" if s["lattice"] else "no-lattice",
             "dt_sample-" + ("explicit" if s["explicit_dt_sample"] else "default"),
             "dp_sample-" + ("explicit" if s["explicit_dp_sample"] else "default"),
-            "bm-order-%d" % s["bm_order"], "lowT" if s["low_t"] else "T-generic"]
+            "bm-order-%d" % s["bm_order"], "lowT" if s["low_t"] else "T-generic", "soft-mode" if s.get("soft_mode") else "no-soft-mode"]
 
 
 def tags_of(s, qs):
@@ -87,6 +88,7 @@ def oracle(ctx, s, ds, qs):
             from ..runner import crash_site
             raise PropertyViolation("C12/crash%s/%s" % (tag, crash_site(e)), "Calculator failed: %s: %s" % (type(e).__name__, str(e)[:200]), case)
         T = np.asarray(calc.t_array, dtype=float)
+        calc_v = np.asarray(calc.v_array, dtype=float)
         nt, ntv = len(T), len(calc.v_array)
         keys = [tuple(k.voigt) for k in calc.modulus_keys]
         iso = {tuple(k.voigt): np.asarray(v) for k, v in calc.modulus_isothermal.items()}
@@ -126,7 +128,14 @@ def oracle(ctx, s, ds, qs):
             raise PropertyViolation("C12/nonfinite-derived" + tag, "%s not finite/real where the stiffness is positive definite" % name, case)
     # ---- T -> 0 ------------------------------------------------------------------------------------------
     if T[0] == 0:
-        low = (T > 0) & (T <= 1.0)
+        # rows so cold that every mode is frozen out: h nu_min / k T >= 50 (exp(-50) ~ 2e-22), and at most 1 K
+        try:
+            nu = np.array(ds.nu(np.array(calc_v)), dtype=float)
+            nu[..., 0, :3] = np.inf
+            nu_min = float(np.min(nu))
+        except Exception:
+            nu_min = 30.0
+        low = (T > 0) & (T <= min(1.0, 1.4387768775 * nu_min / 50.0))
         for k, v in iso.items():
             sc = np.max(np.abs(v[0]))
             if np.any(low) and np.max(np.abs(v[low] - v[0][None])) > 1e-6 * sc:
